@@ -415,14 +415,16 @@ def run(run, tier, replay):
         run.note("remote_thread_edges_covered", edges)
         run.note("remote_step_x_other_thread_site_pairs_covered", pairs)
         sites = {}
+        diverged = None
         released = quarantined = nrem = 0
         for cfg, path, n in rfiles:
             s, d = replay_bin(run, "replay_remote", [path], "remote " + cfg)
             dr = classify(run, s, d, "remote " + cfg)
             total_drift += dr
-            if s["cases"] and dr * 2 > s["cases"] and not run.violations:
-                raise vlib.ToolError("replay_remote %s: %d of %d schedules diverged from the model: the spec no longer "
-                                     "describes the code (re-synchronise TaskRemote.tla)" % (cfg, dr, s["cases"]))
+            if s["cases"] and dr * 2 > s["cases"] and diverged is None:
+                # decided at the very end: a divergence must never hide a contract violation found by a later leg
+                diverged = ("replay_remote %s: %d of %d schedules diverged from the model: the spec no longer "
+                            "describes the code (re-synchronise TaskRemote.tla)" % (cfg, dr, s["cases"]))
             run.add_traces(s["cases"])
             nrem += s["cases"]
             released += s["actions_released"]
@@ -478,8 +480,8 @@ def run(run, tier, replay):
         run.add_traces(s["cases"])
         run.note("remote_pattern_and_regression_schedules_replayed", nreg)
         run.note("remote_schedules_replayed", nrem)
-        if missing and not run.violations:
-            raise vlib.ToolError("binding lost: hook points never exercised by the replayed schedules: %s" % missing)
+        if missing and diverged is None:
+            diverged = "binding lost: hook points never exercised by the replayed schedules: %s" % missing
         with open(rfiles[1][1]) as f:
             first = json.loads(f.readline())
         run.sample({"schedule": [(x["th"], x["a"], x["arg"]) for x in first["steps"][:14]]})
@@ -505,6 +507,19 @@ def run(run, tier, replay):
             nm = k if run.violations else 0
         if nm < k or k == 0:
             raise vlib.ToolError("negative control (replay_remote): %d corrupted schedules, %d divergences noticed" % (k, nm))
+        # teardown family, generated from a probe of the REAL code (independent of the model): a remote scheduler is
+        # parked at every hook site of its call in turn while the home thread clears / drops the executor
+        s, d = replay_bin(run, "replay_remote", ["--teardown"], "remote teardown family")
+        total_drift += classify(run, s, d, "remote teardown family (scheduler parked at each of its hook sites while the "
+                                           "executor is torn down)")
+        run.add_traces(s["cases"])
+        quarantined += s["threads_quarantined"]
+        run.note("remote_threads_quarantined_before_use_of_freed_memory", quarantined)
+        run.note("remote_teardown_family_members", s.get("teardown_members", 0))
+        run.note("remote_teardown_sites_probed", s.get("teardown_sites", {}))
+        tsites = s.get("teardown_sites", {})
+        if not run.violations and not all("exec.remote.load_shared" in tsites.get(v, []) for v in ("wake", "hdrop", "fullq")):
+            raise vlib.ToolError("teardown family: the probe did not see exec.remote.load_shared in every variant: %s" % tsites)
         # free-running leg (no controller): an awaiting joiner on another thread against completion
         nst = 200 if quick else 2000
         s, d = _bin_lines("replay_remote", ["--stress", nst, vlib.seed()], timeout=6000)
@@ -512,6 +527,8 @@ def run(run, tier, replay):
         run.add_traces(s["cases"])
         run.note("free_running_join_iterations", s["cases"])
         run.note("negative_controls", "corrupted expectation (replay_task) and corrupted arrival site (replay_remote) rejected")
+        if diverged and not run.violations:
+            raise vlib.ToolError(diverged)
         run.note("drift_cases", total_drift)
         run.note("programs_replayed", nprog)
         run.note("exhaustive", False)
